@@ -8,6 +8,8 @@
 //                                    FLAGS: comma list of std|nostd, require=<hex>, render, tree
 //   verif-harness phases  CASES      like compile; prints Debug dumps of vars/resolved/ordered/ir/usage (hex)
 //   verif-harness tree    CASES      like compile; prints the parsed modules (sylt_parser::tree) as S-expressions with spans
+//   verif-harness treef   CASES      like tree, full detail: spans are @file_id:line_start:line_end:col_start:col_end,
+//                                    if-branches carry their span, functions their name (hex)
 //   verif-harness repeat N CASES     like compile, each case compiled N times in-process; prints a digest line
 //
 // Options (before the subcommand): --skip K (skip the first K cases), --timeout SECS (per case watchdog).
@@ -297,13 +299,17 @@ fn phases_line(_c: &CompileCase) -> String {
 
 /// `sylt_parser::tree` only: `TREE <hex of module dump with spans>` or `ERR ...`
 fn tree_line(c: &CompileCase) -> String {
+    tree_line_mode(c, false)
+}
+
+fn tree_line_mode(c: &CompileCase, full: bool) -> String {
     let r = std::panic::catch_unwind(std::panic::AssertUnwindSafe(|| {
         let files = &c.files;
         let reader = |p: &Path| -> Result<String, Error> {
             files.get(p).cloned().ok_or_else(|| Error::FileNotFound(p.to_path_buf()))
         };
         match sylt_parser::tree(Path::new(&c.main), reader, c.std) {
-            Ok(t) => format!("TREE {}", hex(sexp::tree_dump(&t, true).as_bytes())),
+            Ok(t) => format!("TREE {}", hex(sexp::tree_dump_mode(&t, true, full).as_bytes())),
             Err(errs) => format!(
                 "ERR{}",
                 errs.iter().map(|e| format!(" {}", error_line(e))).collect::<String>()
@@ -398,6 +404,7 @@ fn main() {
                     "compile" => compile_line(&parse_compile_case(line)),
                     "phases" => phases_line(&parse_compile_case(line)),
                     "tree" => tree_line(&parse_compile_case(line)),
+                    "treef" => tree_line_mode(&parse_compile_case(line), true),
                     "repeat" => {
                         let c = parse_compile_case(line);
                         let mut digests = Vec::new();
